@@ -92,3 +92,21 @@ Proof. vm_compute. reflexivity. Qed.
 Lemma w_update_boundaries_no_trace :
   leaves_trace w_ord w_doc w_update 0 = false /\ leaves_trace w_ord w_doc w_update 5 = false.
 Proof. vm_compute. split; reflexivity. Qed.
+
+(* C29: a nested recalculation of another dirty cell during a read-only evaluation is not a doc action: nothing is
+   appended to the undo list, so the rollback at get_formula_value's checkpoint does not revert it. *)
+Definition w_nested_calc : list event := [ECalc T B [(1, 20)]].
+Lemma w_nested_calc_trace :
+  match state_after w_ord (init_state w_doc []) w_nested_calc with
+  | Some st => bool_decide (rollback w_ord 0 st = Some w_doc) = false /\ ms_undo st = []
+  | None => False end.
+Proof. vm_compute. split; reflexivity. Qed.
+
+(* a formula side effect (lookupOrAddDerived adds a record, then a cell of it is updated) IS reverted *)
+Definition w_side_effect : list event :=
+  [EDoc (AddRecord T 3 [(A, 7)]); EDoc (UpdateRecord T 3 [(C, 9)])].
+Lemma w_side_effect_restored :
+  match state_after w_ord (init_state w_doc [RemoveTable T]) w_side_effect with
+  | Some st => bool_decide (rollback w_ord 1 st = Some w_doc) = true /\ length (ms_undo st) = 3%nat
+  | None => False end.
+Proof. vm_compute. split; reflexivity. Qed.
